@@ -22,6 +22,12 @@ func crossSpecs(sh []int, steps []int, emit func(string)) {
 }
 
 func genC02(tier string, r *rng, emit func(string)) {
+	// T[:] (an empty slice list): a view of everything whose shape and strides are its own - later
+	// operations on the parent or on the view, and handing the view back, leave the other intact
+	for _, c := range []string{"new:rm:2,3:0;slice:0:-;reshape:0:3,2", "new:rm:2,3:0;slice:0:-;reshape:1:6", "new:rm:3,4:0;slice:0:-;ret:1;slice:0:1.2.0/1.4.2",
+		"new:rm:2,3:0;slice:0:-;T:0:1,0;at:1:1,2", "new:rm:2,3:0;slice:0:-;T:1:1,0;at:0:1,2", "new:cm:2,3:0;slice:0:-;reshape:0:3,2", "new:rm:2,3,2:0;slice:0:-;slice:1:-;ret:1;at:2:1,2,1"} {
+		emit("prog f64 " + c)
+	}
 	thorough := tier == "thorough"
 	dts := []string{"f64", "i", "u8", "str", "c64", "b"}
 	// (1) complete per-axis argument sets, full cross product, row-major and column-major sources
